@@ -120,8 +120,7 @@ class Expander:
         raise AnalysisError("cannot express %s as an affine form" % norm(e))
 
 
-def rule_r2_header(ctx):
-    rid = "C02.R2"
+def rule_r2_header(ctx, rid="C02.R2"):
     ctx.r.rule(rid, "consumed-count accounting: every return of the received() methods equals cut - len(carry) (or len(data) when nothing was cut) as an affine form")
     p = ctx.p
     f = p.func("parser.HTTPRequestParser.received")
@@ -491,8 +490,7 @@ def rule_r1(ctx, rid="C02.R1"):
                 ctx.r.violation(rid, key_of(f, None, "no-reset::" + carry), "%s is neither reset nor is its phase left when the token is complete: stale bytes are prefixed to the next token" % carry, f.loc(j.ast))
 
 
-def rule_r3(ctx):
-    rid = "C02.R3"
+def rule_r3(ctx, rid="C02.R3"):
     ctx.r.rule(rid, "running counters are cut-independent: header size is assigned the absolute index when the head ends and accumulated otherwise")
     p = ctx.p
     f = p.func("parser.HTTPRequestParser.received")
@@ -522,8 +520,7 @@ def rule_r3(ctx):
     ctx.r.violations[before:] = [v for v in ctx.r.violations[before:] if "body-total" in v["key"] or "body-read" in v["key"]]
 
 
-def rule_r4(ctx):
-    rid = "C02.R4"
+def rule_r4(ctx, rid="C02.R4"):
     ctx.r.rule(rid, "the channel loop re-offers exactly the unconsumed suffix: data = data[n:] for the n just returned, exit at n >= len(data), completed parser replaced")
     p = ctx.p
     f = p.func("channel.HTTPChannel.received")
